@@ -7,7 +7,7 @@ import torch._dynamo
 import torch.nn as nn
 import torch.optim as optim
 from gymnasium import spaces
-from tensordict import TensorDict, from_module
+from tensordict import TensorDict
 from tensordict.nn import CudaGraphModule
 
 from agilerl.algorithms.core import RLAlgorithm
@@ -180,24 +180,15 @@ class DQN(RLAlgorithm):
         self.register_mutation_hook(self.init_hook)
 
     def init_hook(self) -> None:
-        """Resets module parameters for the detached and target networks."""
-        param_vals: TensorDict = from_module(self.actor).detach()
-
-        # NOTE: This removes the target params from the computation graph which
-        # reduces memory overhead and speeds up training, however these won't
-        # appear in the modules parameters
-        target_params: TensorDict = param_vals.clone().lock_()
-
-        # This hook is prompted after performing architecture mutations on policy / evaluation
-        # networks, which will fail since the target network is a shared network that won't be
-        # reintiialized until the end. We can bypass the error safely for this reason.
+        """Resets module parameters for the target network."""
+        # NOTE: The target network keeps real parameters so that they are part of its
+        # state dict, i.e. they are cloned and checkpointed with the agent
         try:
-            target_params.to_module(self.actor_target)
-        except KeyError:
+            self.actor_target.load_state_dict(self.actor.state_dict())
+        except RuntimeError:
+            # This hook is prompted after performing architecture mutations on the policy, when the
+            # target network hasn't been reinitialized yet. We can bypass the error safely.
             pass
-        finally:
-            self.param_vals = param_vals
-            self.target_params = target_params
 
     def get_action(
         self,
@@ -349,9 +340,12 @@ class DQN(RLAlgorithm):
 
     def soft_update(self) -> None:
         """Soft updates target network."""
-        # NOTE: The target parameters are held in `self.target_params` (see `init_hook()`)
-        # and don't appear in `self.actor_target.parameters()`
-        self.target_params.lerp_(self.param_vals.data, self.tau)
+        for eval_param, target_param in zip(
+            self.actor.parameters(), self.actor_target.parameters()
+        ):
+            target_param.data.copy_(
+                self.tau * eval_param.data + (1.0 - self.tau) * target_param.data
+            )
 
     def test(
         self,
